@@ -33,7 +33,7 @@ def run_property(prop, tier, report):
         raise
     # (declcheck --prop C08 also reports, under classes c01_*, whether the graph that instantiates each
     # component encodes to a valid component: those findings belong to C01)
-    findings = [f for f in findings if not f.get("class", "").startswith("c01_")]
+    findings = [f for f in findings if not f.get("class", "").startswith(("c01_", "c03_"))]
     report.add_findings(findings, "declcheck")
     cov = report.coverage
     cov["states"] = max(stats["distinct"], 1)
@@ -69,9 +69,9 @@ def run_property(prop, tier, report):
                               "the reference toolchain decides disagreements between Decl.tla and itself (exit 2, not a violation)")
 
 
-def c01_findings(tier):
-    """C01 over the component corpus of C08: (findings, summary)"""
+def c01_findings(tier, prefix="c01_"):
+    """C01 (prefix c01_) / C03 (prefix c03_) over the component corpus of C08: (findings, summary)"""
     path, _ = artefacts(tier)
     build_harness()
     findings, summary = pipe_gz_to([hbin("declcheck"), "--data", os.path.join(HARNESS, "data"), "--prop", "C08"], [path], timeout=3600)
-    return [f for f in findings if f.get("class", "").startswith("c01_")], summary
+    return [f for f in findings if f.get("class", "").startswith(prefix)], summary
